@@ -709,6 +709,19 @@ pub fn library() -> &'static Vec<Pkg> {
                 is_component: true,
             });
         }
+        for (name, version, text) in WAT_COMPONENTS_7 {
+            let bytes = wat::parse_str(text)
+                .unwrap_or_else(|e| panic!("corpus component {name} does not assemble: {e:?}"));
+            let (imports, exports) = names_of(&bytes);
+            v.push(Pkg {
+                name,
+                version: *version,
+                bytes,
+                imports,
+                exports,
+                is_component: true,
+            });
+        }
         v
     })
 }
@@ -852,6 +865,52 @@ const WIT_COMPONENTS_6: &[(&str, Option<&str>, &str, &[&str])] = &[
         None,
         "package t:x;\ninterface i { resource r { constructor(a: u32); get: func() -> u32; } mk: func() -> r; }\nworld w { export i; import log: func(m: string); }",
         &[],
+    ),
+];
+
+/// Seventh generation: instances nested in instances on one semver track (each nested
+/// instance gets its own interface id in the aggregator, so a third name on the track has two
+/// candidates to merge into).
+const WAT_COMPONENTS_7: &[(&str, Option<&str>, &str)] = &[
+    (
+        "odd:track-nest-a",
+        None,
+        r#"(component
+  (import "x:y/a@0.2.0" (instance
+     (export "x:y/a@0.2.1" (instance (export "f" (func))))
+  ))
+)"#,
+    ),
+    (
+        "odd:track-nest-b",
+        None,
+        r#"(component
+  (import "x:y/b" (instance
+     (export "x:y/a@0.2.2" (instance (export "f" (func))))
+  ))
+)"#,
+    ),
+    (
+        "odd:res-share",
+        None,
+        r#"(component
+  (import "x:y/b@1.0.0" (instance $i0 (export "r2" (type (sub resource)))))
+  (alias export $i0 "r2" (type $r0))
+  (import "f" (instance $i1 (alias outer 1 $r0 (type $o1)) (export "u2" (type $u1 (eq $o1)))))
+  (export "q:r/a@0.2.1" (instance 0))
+)"#,
+    ),
+    (
+        "odd:track-nest-c",
+        None,
+        r#"(component
+  (import "x:y/b" (instance
+     (export "x:y/a@0.2.2" (instance
+        (export "f" (func))
+        (export "x:y/a@0.2.1" (func))
+     ))
+  ))
+)"#,
     ),
 ];
 
